@@ -37,7 +37,7 @@ fn sign_kb(alg: &str, typ: Option<&str>, claims: &Value, other_key: bool) -> Str
 pub const DEFECTS: &[&str] = &[
     "none", "none_policy_aud_unset", "other_key", "other_alg", "typ_missing", "typ_jwt", "hash_other_string", "hash_jwt_only",
     "hash_whole_string", "hash_other_alg", "hash_missing", "hash_not_string", "aud_unexpected", "aud_missing", "aud_array_ok",
-    "aud_array_expected_last", "aud_array_empty", "aud_array_others_only", "aud_array_mixed_types",
+    "aud_array_expected_last", "aud_array_empty", "aud_array_others_only", "aud_array_mixed_types", "kb_followed_by_space",
     "no_policy", "drop_disclosure", "add_disclosure", "dup_disclosure", "reorder_disclosures", "replace_disclosure", "strip_kb",
     "kb_on_unbound", "cnf_not_rsa", "cnf_e_missing", "cnf_n_not_string", "cnf_n_not_base64", "cnf_null",
     // two conditions together: the verifier was given no key-binding policy AND ...
@@ -199,7 +199,15 @@ pub fn generate_kinds(kinds: &[&str], n: usize, seed: u64, em: &mut Emitter) {
         if defect == "reorder_disclosures" && presented == list {
             continue;
         }
-        let kb_seg = if defect.starts_with("strip_kb") { String::new() } else { kb.clone() };
+        let kb_seg = if defect.starts_with("strip_kb") {
+            String::new()
+        } else if defect == "kb_followed_by_space" {
+            // white space after the key-binding JWT, ASCII or multi-byte, shorter or longer than the KB-JWT itself
+            let unit = *r.pick(&[" ", "\u{a0}", "\u{3000}", "\u{3000}", "\u{2028}", "\u{1680}"]);
+            format!("{}{}", kb, unit.repeat(*r.pick(&[2usize, 401, 900, 1301, 1700])))
+        } else {
+            kb.clone()
+        };
         let token = presentation_string(&jwt, &presented, &kb_seg);
         let kbpol = !defect.ends_with("no_policy");
         // ---- oracle tables (independent): is this KB-JWT valid under the cnf key and the policy?
